@@ -40,6 +40,27 @@ inline void part(ByteSource& b, std::string& pat, std::string& inst, const char*
   (void)delim_escape_chars;
 }
 
+// a braced group "{prefix MATCHER suffix}modifier" — one part with explicit prefix and
+// suffix (the shapes on which the literal / wildcard shortcut classification depends)
+inline void braced_group(ByteSource& b, std::string& pat, std::string& inst) {
+  std::string pre = b.chance(128) ? word(b) : "", suf = b.chance(160) ? (b.coin() ? "." + word(b) : word(b)) : "";
+  std::string m, mi;
+  switch (b.below(5)) {
+    case 0: m = "*"; mi = b.coin() ? word(b) : ""; break;
+    case 1: m = ":" + name(b); mi = word(b); break;
+    case 2: m = "(.*)"; mi = b.coin() ? word(b) : ""; break;
+    case 3: m = ":" + name(b) + "(.*)"; mi = word(b); break;
+    default: m = ""; mi = ""; break;  // pure fixed text in braces
+  }
+  static const char* mods[] = {"", "", "?", "*", "+"};
+  std::string mod = b.pick(mods);
+  pat += "{" + pre + m + suf + "}" + mod;
+  std::string one = pre + mi + suf;
+  if (mod == "?" || mod == "*") { if (b.coin()) inst += one; }
+  else inst += one;
+  if ((mod == "*" || mod == "+") && b.chance(60)) inst += one;
+}
+
 inline Comp protocol(ByteSource& b) {
   Comp c;
   static const unsigned w[] = {50, 15, 12, 10, 8, 5};
